@@ -25,6 +25,7 @@ import (
 	"errors"
 	"fmt"
 	"runtime"
+	"runtime/debug"
 	"sort"
 	"strings"
 	"sync"
@@ -52,6 +53,7 @@ type Run struct {
 	Y     uint64
 	World string   // eachfeature: direct | basic | overlay | compact
 	Kinds []string // pbf: kind of every blob (h n w r p m); eachfeature: kind of every feature (p a A r)
+	Index []byte   // eachfeature, compact world: the index built by the parent process (compact.BuildInMemory)
 }
 
 var protos = []string{"eachitem", "memread", "pbf", "eachfeature", "modtags"}
@@ -457,7 +459,7 @@ func makeFeature(kind string, i int) ingest.Feature {
 	panic("eachfeature: unknown feature kind " + kind)
 }
 
-// compact worlds are expensive to build: one per feature-kind list and child process
+// a loaded compact world per feature-kind list and child process
 var compactCache = map[string]*compactWorld{}
 
 type compactWorld struct {
@@ -466,21 +468,41 @@ type compactWorld struct {
 	layout string                  // blocks separated by ` `, buckets by `|`, features by `,`; `-` = empty bucket
 }
 
-func buildCompact(kinds []string) *compactWorld {
+// buildIndex runs compact.BuildInMemory for a kind list — in the parent process, once per kind list: a build takes
+// from 0.1 s to many seconds (it allocates ~80 MB buffers per goroutine and pass; the collector is switched off
+// while it runs) and is not what this check is about.
+var indexCache = map[string][]byte{}
+
+func buildIndex(kinds []string) []byte {
+	key := strings.Join(kinds, "")
+	if data, ok := indexCache[key]; ok {
+		return data
+	}
+	fs := make([]ingest.Feature, len(kinds))
+	for i, k := range kinds {
+		fs[i] = makeFeature(k, i)
+	}
+	old := debug.SetGCPercent(-1)
+	o := compact.Options{Goroutines: 2, PointsScratchOutputType: compact.OutputTypeMemory}
+	data, err := compact.BuildInMemory(ingest.MemoryFeatureSource(fs), &o)
+	debug.SetGCPercent(old)
+	runtime.GC()
+	if err != nil {
+		panic(err)
+	}
+	data = append([]byte(nil), data...)
+	indexCache[key] = data
+	return data
+}
+
+func loadCompact(kinds []string, data []byte) *compactWorld {
 	key := strings.Join(kinds, "")
 	if cw, ok := compactCache[key]; ok {
 		return cw
 	}
-	fs := make([]ingest.Feature, len(kinds))
 	byID := map[b6.FeatureID]int{}
 	for i, k := range kinds {
-		fs[i] = makeFeature(k, i)
-		byID[fs[i].FeatureID()] = i
-	}
-	o := compact.Options{Goroutines: 2, PointsScratchOutputType: compact.OutputTypeMemory}
-	data, err := compact.BuildInMemory(ingest.MemoryFeatureSource(fs), &o)
-	if err != nil {
-		panic(err)
+		byID[featureID(k, i)] = i
 	}
 	w, err := compact.NewWorldFromData(data)
 	if err != nil {
@@ -582,7 +604,7 @@ func runEachFeature(r *Run, rec *recorder) error {
 		}
 		return w.EachFeature(each, options)
 	case "compact":
-		cw := buildCompact(r.Kinds)
+		cw := loadCompact(r.Kinds, r.Index)
 		rec.layout = cw.layout
 		return cw.w.EachFeature(each, options)
 	}
@@ -660,9 +682,14 @@ func childBatch(arg string) string {
 
 // ---- parent side ------------------------------------------------------------------------------
 
-const batchSize = 40
+const batchSize = 100
 
 func runBatch(runs []Run) []string {
+	for i := range runs {
+		if runs[i].Proto == "eachfeature" && runs[i].World == "compact" {
+			runs[i].Index = buildIndex(runs[i].Kinds)
+		}
+	}
 	arg, _ := json.Marshal(batch{Runs: runs, TimeoutMs: 2500})
 	res := hx.RunChild("batch", string(arg), 120*time.Second)
 	lines := strings.Split(res, "\n")
@@ -728,7 +755,7 @@ var featureKinds = []string{"p", "a", "A", "r"}
 var blobKinds = []string{"n", "w", "r", "p", "m", "r", "n"}
 
 // compact worlds are built once per kind list and child process, so only a few kind lists are used
-var compactTemplates = []string{"pppapArA", "ppppppaaAArr", "paAr", "ppaaAArrppar", "rAap"}
+var compactTemplates = []string{"pppapArA"} // one build per harness run
 
 func split(t string) []string {
 	out := make([]string, len(t))
@@ -770,7 +797,10 @@ func shape(r *hx.Rand, run *Run) {
 			run.Kinds[i] = blobKinds[r.Intn(len(blobKinds))]
 		}
 	case "eachfeature":
-		run.World = worlds[r.Intn(len(worlds))]
+		run.World = worlds[r.Intn(3)]
+		if r.Chance(1, 8) { // a compact world costs a build per kind list and child process
+			run.World = "compact"
+		}
 		if run.World == "compact" {
 			run.Kinds = split(compactTemplates[r.Intn(len(compactTemplates))])
 		} else {
@@ -890,7 +920,7 @@ var corpus = []Run{
 	{Proto: "eachfeature", World: "basic", G: 2, MP: 4, Sizes: ones(4), Kinds: split("paAr"), Fail: [][2]int{{3, 0}}},
 	{Proto: "eachfeature", World: "overlay", G: 1, MP: 4, Sizes: ones(8), Kinds: split("pppapArA"), Fail: [][2]int{{5, 0}}},
 	{Proto: "eachfeature", World: "overlay", G: 2, MP: 4, Sizes: ones(8), Kinds: split("pppapArA"), Fail: [][2]int{{6, 0}}},
-	{Proto: "eachfeature", World: "compact", G: 1, MP: 4, Sizes: ones(4), Kinds: split("paAr"), Fail: [][2]int{{3, 0}}},
+	{Proto: "eachfeature", World: "compact", G: 1, MP: 4, Sizes: ones(8), Kinds: split("pppapArA"), Fail: [][2]int{{6, 0}}},
 	{Proto: "eachfeature", World: "compact", G: 2, MP: 4, Sizes: ones(8), Kinds: split("pppapArA"), Fail: [][2]int{{5, 0}}},
 }
 
